@@ -52,7 +52,11 @@ class Executor(ExprMixin, ContainerMixin, CallMixin, StmtMixin, ObjectMixin):
         parts = self.split_goal(goal)
         for k, g1 in enumerate(parts):
             suffix = f"/{k + 1}of{len(parts)}" if len(parts) > 1 else ""
-            self.obligations.append(Obligation(f"{self.qual}[{self.variant}]#{nm}{suffix}", list(p.conds), g1, tuple(props if props is not None else self.contract.props), self.qual, kind))
+            ob = Obligation(f"{self.qual}[{self.variant}]#{nm}{suffix}", list(p.conds), g1, tuple(props if props is not None else self.contract.props), self.qual, kind)
+            if z3.is_expr(g1) and g1.get_id() in p.cond_ids:
+                # the goal literally is one of the path's assumptions (e.g. an unchanged wf clause re-required by a callee)
+                ob.status, ob.backend = "proved", "syntactic"
+            self.obligations.append(ob)
 
     def split_goal(self, goal, limit=400):
         """Top-level conjunctions are discharged conjunct by conjunct (smaller queries,
